@@ -326,3 +326,15 @@ PLANS["C19"]["mc"].append(hf_mc("airdrop", extra=dict(Features=["core", "reward"
 PLANS["C19"]["sim"].append(hf_sim("airdrop", extra=dict(Features=["core", "reward", "airdrop"], Amts=[10], RewardAmts=[40, 100])))
 PLANS["C19"]["drive"].append(dict(name="airdrop", menu=menu(MENU_DISP, items=AIRDROP_ITEMS), runs=(100, 3000), len=40, consts=dict(MaxBatch=8)))
 PLANS["C11"]["drive"][1]["menu"] = menu(PLANS["C11"]["drive"][1]["menu"], items=AIRDROP_ITEMS)
+
+# peg-fee paths after rewards AND slashing (stSei rate above 1, bSei rate below the threshold), high fee rates
+MENU_PEG = {"items": {"bond": 4, "bond_st": 4, "fund_disp": 4, "bond_rewards": 5, "slash": 5, "convert_st_b": 7, "convert_b_st": 5, "unbond_b": 4, "unbond_st": 1, "advance": 3, "check_slashing": 1},
+            "amax": 600, "dts": [1, 3, 5], "slash_div": [3, 10], "probes": [], "probe_every": 0,
+            "vary": {"fee": [[0, 500000000, 0], [0, 333333333, 333333333], [1, 0, 0], [0, 50000000, 0]], "thr": [[1, 0, 0], [0, 950000000, 0]], "periods": [[2, 5]]}}
+PLANS["C05"]["drive"] = PLANS["C05"]["drive"] + [dict(name="peg", menu=MENU_PEG, runs=(150, 4000), len=40, consts=dict(MaxBatch=8))]
+PLANS["C03"]["drive"] = PLANS["C03"]["drive"] + [dict(name="peg", menu=MENU_PEG, runs=(150, 4000), len=40, consts=dict(MaxBatch=8))]
+# a half-configured hub: fresh instance, dispatcher wired (to a contract that accepts everything), no registry, no tokens
+HALF_PREFIX = [{"k": "instantiate", "c": "hub", "sender": "owner2", "epoch": 2, "unbonding": 5, "fee": [0, 0, 0], "thr": [1, 0, 0]},
+               ex("owner2", "hub", {"k": "update_config", "dispatcher": "sink", "registry": "", "bsei": "", "stsei": "", "airdrop": "", "rewards": "", "updater": ""})]
+for _p in ("C10", "C11", "C20"):
+    PLANS[_p]["drive"] = PLANS[_p]["drive"] + [dict(name="auth-half", menu=dict(MENU_AUTH, prefix=HALF_PREFIX), runs=(6, 150), len=18, consts=dict(MaxBatch=6, UserFunds=1000))]
